@@ -72,6 +72,13 @@ def check_C01(ctx):
             s.mode = mode; scens.append(s)
         for _ in range(n // 2):
             scens.append(Scen(gen_tree(rng), mode=mode))
+    # a test whose process is killed while it exits, after its completion notice, in an otherwise green run
+    for point in ("after_completion", "at_exit"):
+        for how in ("9", "11", "6", "15"):
+            for shape in (0, 1):
+                v = T("v", body=["P", "P"])
+                root = S("top", items=[T("a", body=["P"]), v, T("b", body=["P"])]) if shape == 0 else S("top", items=[S("inner", items=[v]), T("b", body=["P"])])
+                scens.append(Scen(root, mode="fork", kill=(point, 1, how, "v")))
     reporters = ["text", "quiet", "cute"]
     dis, orf = explore(ctx, bench, scens, reporters, oracle_C01, "C01")
     report(ctx, bench, dis, orf, oracle_C01, "C01")
